@@ -25,15 +25,15 @@ Proof. exact byte_eq_lua. Qed.
 Print Assumptions C13_byte_eq_lua.
 
 (* ---- (c) rep / reverse / upper / lower / classes ---- *)
-Theorem C13_rep_eq_lua : forall s n r, in_i64 n -> slen s <= maxint ->
+Theorem C13_rep_eq_lua_partial : forall s n r, in_i64 n -> slen s <= maxint ->
   lua_rep s n [] = LVal r -> nl_rep s n = Val r.
 Proof. exact rep_eq_lua. Qed.
-Print Assumptions C13_rep_eq_lua.
+Print Assumptions C13_rep_eq_lua_partial.
 
-Theorem C13_rep_sep_eq_lua : forall s n sep r, in_i64 n -> slen s <= maxint -> slen sep <= maxint ->
+Theorem C13_rep_sep_eq_lua_partial : forall s n sep r, in_i64 n -> slen s <= maxint -> slen sep <= maxint ->
   lua_rep s n sep = LVal r -> nl_rep_sep s n sep = Val r.
 Proof. exact rep_sep_eq_lua. Qed.
-Print Assumptions C13_rep_sep_eq_lua.
+Print Assumptions C13_rep_sep_eq_lua_partial.
 
 (* string.rep never writes outside its buffer (after b10c461, c3dc3fb): full strength, with and without separator *)
 Theorem C13_rep_memory_safe : forall s n, nl_rep s n <> Unsafe.
@@ -69,14 +69,6 @@ Print Assumptions C13_lower_eq_lua.
 Theorem C13_abs_eq_lua : forall n, in_i64 n -> nl_abs n = lua_abs n.
 Proof. exact abs_eq_lua. Qed.
 Print Assumptions C13_abs_eq_lua.
-
-Theorem C13_max_eq_lua : forall x l, nl_max_l x l = lua_max_l x l.
-Proof. exact max_eq_lua. Qed.
-Print Assumptions C13_max_eq_lua.
-
-Theorem C13_min_eq_lua : forall x l, nl_min_l x l = lua_min_l x l.
-Proof. exact min_eq_lua. Qed.
-Print Assumptions C13_min_eq_lua.
 
 Theorem C13_fmod_eq_lua : forall x y, in_i64 x -> in_i64 y ->
   match lua_fmod x y with
@@ -137,12 +129,6 @@ Theorem C13_gmatch_eq_lua : forall (m : matcher) (s : bytes),
   nl_gmatch m s init = lua_gmatch m s init /\ lua_gmatch m s init <> None.
 Proof. exact gmatch_eq_lua_gen. Qed.
 Print Assumptions C13_gmatch_eq_lua.
-
-(* two-argument math.max/min (after 873f3b9): Lua's result for every order relation, partial ones included *)
-Theorem C13_max2_eq_lua : forall (A : Type) (lt : A -> A -> bool) (x y : A),
-  nl_max2_gen A lt x y = lua_max2_gen A lt x y /\ nl_min2_gen A lt x y = lua_min2_gen A lt x y.
-Proof. exact max2_eq_lua. Qed.
-Print Assumptions C13_max2_eq_lua.
 
 (* ---- (e) UTF-8 ---- *)
 Theorem C13_utf8_roundtrip : forall x, 0 <= x <= 2147483647 ->
@@ -249,9 +235,13 @@ Proof. exact pack_uint_eq_lua. Qed.
 Print Assumptions C13_pack_uint_eq_lua.
 
 (* ---- (h) the pattern matcher itself ---- *)
-(* on every subject and pattern the port's matcher returns exactly what Lua's matcher returns (match and
-   captures, no match, malformed-pattern error) or stops with its documented "pattern too complex" (recursion
-   budget MAX_MATCH_CALLS = 32 against Lua's 200) - never another value *)
+(* [do_match] is ONE transcription of match() (lstrlib.c) / _match (strpatt.nelua), run under two configurations
+   that differ in the recursion budget (MAXCCALLS = 200 / MAX_MATCH_CALLS = 32) and in the character classes
+   (C locale <ctype.h> / strchar.nelua).  What is proved: with the port's classes and budget the transcription
+   returns what it returns with Lua's (match and captures, no match, malformed-pattern error), or stops with the
+   documented "pattern too complex" - never another value.  That both sources have the control flow of the
+   transcription is NOT a theorem (no second, structurally separate model): it rests on the per-call
+   correspondence with the compiled port and the real interpreter. *)
 Theorem C13_match_eq_lua : forall src pat p0 s, is_bytes src = true ->
   run_match nl_cfg src pat p0 s = MTooComplex \/ run_match nl_cfg src pat p0 s = run_match lua_cfg src pat p0 s.
 Proof. exact match_eq_lua. Qed.
@@ -270,24 +260,32 @@ Theorem C13_match_range : forall cfg src pat p0 pos e c,
 Proof. exact pat_matcher_range. Qed.
 Print Assumptions C13_match_range.
 
-(* string.gsub on a real pattern (matcher + driver composed): equal to Lua's gsub whenever the port's
-   matcher stays within its recursion budget at every position of the subject *)
-Theorem C13_gsub_pattern_eq_lua_partial : forall src pat repl anchor maxn p0, is_bytes src = true ->
-  (forall pos, 0 <= pos <= slen src -> run_match nl_cfg src pat p0 pos <> MTooComplex) ->
+(* string.gsub on a real pattern (matcher + driver composed).  The drivers of ModelDrv.v take a matcher that can only
+   say "match" or "no match here", so the statement is restricted (_partial) to patterns on which the port's matcher
+   neither reports a malformed pattern nor exceeds its recursion budget at any position of the subject (fuel and
+   MUnsafe are excluded by C13_match_fuel_never_exhausted / C13_match_never_unsafe).  Then: at every position both
+   matchers give the same match or the same genuine failure, and gsub returns what Lua's gsub returns.  A malformed
+   pattern is an error of gsub on both sides (C13_match_error_eq_lua; raised by the real code, by driver.ml in
+   the model voice) and is outside this statement. *)
+Theorem C13_gsub_pattern_eq_lua_partial : forall src pat repl anchor maxn p0, is_bytes src = true -> 0 <= p0 ->
+  (forall pos, 0 <= pos <= slen src ->
+     run_match nl_cfg src pat p0 pos <> MTooComplex /\ run_match nl_cfg src pat p0 pos <> MError) ->
+  (forall pos, 0 <= pos <= slen src ->
+     normal (run_match nl_cfg src pat p0 pos) /\ run_match lua_cfg src pat p0 pos = run_match nl_cfg src pat p0 pos) /\
   nl_gsub (pat_matcher nl_cfg src pat p0) src repl anchor maxn =
   lua_gsub (pat_matcher lua_cfg src pat p0) src repl anchor maxn /\
   lua_gsub (pat_matcher lua_cfg src pat p0) src repl anchor maxn <> None.
-Proof. exact gsub_pattern_eq_lua. Qed.
+Proof. exact gsub_pattern_eq_lua_strict. Qed.
 Print Assumptions C13_gsub_pattern_eq_lua_partial.
 
 (* ---- (f) the pack format parser (string.packsize: options, sizes, '!' and 'X' alignment, the number reader) ----
    on every format (a byte string; Lua's own parser stops at a NUL, such formats are outside this statement
    because the reference gives an error on NUL): wherever lstrlib.c's parser returns a size, strpack.nelua
    returns the same size.  (The converse is false by design: the port also accepts 't'.) *)
-Theorem C13_packsize_eq_lua : forall fmt v, is_bytes fmt = true ->
+Theorem C13_packsize_eq_lua_partial : forall fmt v, is_bytes fmt = true ->
   lua_packsize fmt = LVal v -> nl_packsize fmt = Val v.
 Proof. exact packsize_eq_lua. Qed.
-Print Assumptions C13_packsize_eq_lua.
+Print Assumptions C13_packsize_eq_lua_partial.
 
 (* the padding: Nelua's (addr + align-1) & ~(align-1) in usize is Lua's total + ((align - (total & (align-1))) & (align-1)),
    with the same "not a power of 2" refusal *)
@@ -318,12 +316,19 @@ Theorem C13_format_restricted_is_lua : forall cfloat fmt args out,
 Proof. exact format_cap_sub_lua. Qed.
 Print Assumptions C13_format_restricted_is_lua.
 
-(* REFUTED obligation "string.format never reaches undefined behaviour": scanformat accepts every flag on every
-   conversion; string.format('%#d', 5) calls snprintf with a specification ISO C leaves undefined (Lua 5.4's
-   checkformat raises an error instead) *)
-Theorem C13_format_never_unsafe_refuted : forall cfloat, nl_format cfloat [37; 35; 100] [AInt 5] = Unsafe.
-Proof. exact format_unsafe_witness. Qed.
-Print Assumptions C13_format_never_unsafe_refuted.
+(* the other direction: whatever the port's string.format returns, Lua's str_format returns the same string - the
+   port never fabricates a value where Lua raises an error (after 768ceb2, 53b4816: the flags of each conversion,
+   the precision, and zeros under a modified %s are checked as in Lua 5.4) *)
+Theorem C13_format_val_is_lua : forall cfloat fmt args out,
+  nl_format cfloat fmt args = Val out -> lua_format cfloat fmt args = LVal out.
+Proof. exact format_val_is_lua. Qed.
+Print Assumptions C13_format_val_is_lua.
+
+(* both directions: the port returns a string exactly where Lua restricted to the port's documented limits does *)
+Theorem C13_format_iff_restricted_lua : forall cfloat fmt args out,
+  nl_format cfloat fmt args = Val out <-> lua_format_cap cfloat NL_MAXFLAGS false fmt args = LVal out.
+Proof. exact format_iff_restricted_lua. Qed.
+Print Assumptions C13_format_iff_restricted_lua.
 
 (* the C model: "%lld" of an integer is its decimal text (the text %s and tostring give) *)
 Theorem C13_c99_plain_d_is_decimal : forall v, in_i64 v ->
@@ -410,3 +415,34 @@ Theorem C13_find_plain_none : forall s pat k pos, plain_find k s pat pos = None 
   forall j, pos <= j <= pos + Z.of_nat k -> is_prefix pat (skipn (Z.to_nat j) s) = false.
 Proof. exact plain_find_none. Qed.
 Print Assumptions C13_find_plain_none.
+
+(* a malformed pattern is reported by both matchers at the same position of the same subject *)
+Theorem C13_match_error_eq_lua : forall src pat p0 s, is_bytes src = true ->
+  run_match nl_cfg src pat p0 s = MError -> run_match lua_cfg src pat p0 s = MError.
+Proof. exact match_error_eq_lua. Qed.
+Print Assumptions C13_match_error_eq_lua.
+
+(* the outcome "read outside the subject" is unreachable once the %f flag is off (as it is for Lua and, since
+   ec5206d, for the port): no other branch of the matcher produces it *)
+Theorem C13_match_never_unsafe : forall cfg src pat p0 s, cfg_front_prev_unsafe_on_empty cfg = false -> 0 <= s ->
+  run_match cfg src pat p0 s <> MUnsafe.
+Proof. exact run_match_no_unsafe. Qed.
+Print Assumptions C13_match_never_unsafe.
+
+(* utf8.len: the loop bound of the model is never what ends it *)
+Theorem C13_utf8len_fuel_never_exhausted : forall s i j strict r, in_i64 i -> in_i64 j -> slen s <= maxint ->
+  nl_utf8len s i j strict = Val r -> r <> LenFuel.
+Proof. exact utf8len_no_fuel. Qed.
+Print Assumptions C13_utf8len_fuel_never_exhausted.
+
+(* string.rep: the Lua-side theorems above are one direction (Lua refuses results above INT_MAX, the port only what
+   cannot be allocated); what the port returns is never anything but the n-fold repetition *)
+Theorem C13_rep_val_is_repetition : forall s n r, nl_rep s n = Val r -> r = repeat_bytes (Z.to_nat n) s.
+Proof. exact rep_val_is_repetition. Qed.
+Print Assumptions C13_rep_val_is_repetition.
+
+(* scraped facts the hand-written models rely on (trip-wires): gmatch keeps the end of the last match, and its
+   capture limit is the 8 that driver.ml enforces *)
+Theorem C13_gen_facts : NL_GMATCH_HAS_LASTMATCH = true /\ GMATCH_MAX_CAPTURES = 8.
+Proof. exact gen_facts. Qed.
+Print Assumptions C13_gen_facts.
